@@ -22,3 +22,17 @@ brk("c48-abbreviate-space-three-decimals-truncated", "util/abbreviate.py",
     '        return "%.2f %s%s" % (count, suffix, isuffix)',
     '        return "%s %s%s" % (("%.3f" % count)[:-1], suffix, isuffix)',
     "two decimals obtained by cutting the third instead of rounding: off by up to a whole last digit")
+
+# ---- round 3: twins of seeded/C48-6 (the web pages' size printer, web.common.abbreviate_size)
+brk("c48-web-abbreviate-size-gb-divisor", "web/common.py",
+    '        return u"%1.2fGB" % (r/1000000000)',
+    '        return u"%1.2fGB" % (r/100000000)',
+    "twin of seeded/C48-6: a tier with the wrong divisor prints ten times too large ('15.00GB' for 1.5 GB)")
+brk("c48-web-abbreviate-size-kb-is-1024", "web/common.py",
+    '        return u"%.1fkB" % (r/1000)',
+    '        return u"%.1fkB" % (r/1024)',
+    "kB tier divides by 1024 but prints the SI unit")
+brk("c48-web-abbreviate-size-mb-tier-labelled-kb", "web/common.py",
+    '        return u"%1.2fMB" % (r/1000000)',
+    '        return u"%1.2fkB" % (r/1000000)',
+    "MB tier printed with the kB suffix")
